@@ -51,6 +51,9 @@ CHECKS["C12"] = dict(engine="E-SPEC", cat="exploration",
 CHECKS["C14"] = dict(engine="E-SPEC x E-HIST", cat="exploration",
                      text="Single-Einsum hardware universe under several instance/frequency/bandwidth assignments plus all cascades of 2(-3) Einsum events over two hardware configurations (every fusion situation); the emitted program runs with stand-in models that hand out a distinct prime for every count; the metrics dictionary is compared with an independent roll-up: (A) time = sum over blocks of max over components of summed component times, over all component times present; (B) each component time = counts / (rate x instances); (C) every count handed out reaches metrics exactly once.",
                      note=HWREF + "; float division compared with exact rationals at 1e-9 relative tolerance", tech="bounded exhaustive enumeration of configurations/histories; execution with prime-valued stand-ins against an independent roll-up")
+CHECKS["C16"] = dict(engine="E-SPEC x E-DATA", cat="exploration",
+                     text="Bases (matmul plain / shape / occupancy / flatten / sigma, 3-operand product, sum, convolution plain and partitioned, broadcast) x level-monotone loop orders x every split of the loop ranks into space and time x styles (all-pos, all-coord, single-rank deviations) x slip on/off x all presence patterns; with recording createCanvas/addActivity/displayCanvas stand-ins: tensors equal those of the same specification compiled without spacetime, exactly one activity per executed update, one point per displayed tensor with one coordinate per rank of the tensor passed to createCanvas, and pairwise distinct (space,time) stamps when every loop rank is stamped.",
+                     note="reference HiFiber model; bounded bases/extents", tech="bounded exhaustive enumeration of configurations x inputs with recording stand-ins")
 CHECKS["C17"] = dict(engine="E-GRAM", cat="exploration",
                      text="Exhaustive derivation of the sentences of the five grammars within structural bounds (index-expression menu with signed coefficients, rank lists of length 0-2 on inputs and output, terms of <= 3 factors incl. take() with every selector, <= 3 terms, keyword-like names; every directive kind x size x leader; rank tuples of 1-3 names; stamps; level names with instance ranges) x whitespace variants at terminal boundaries; an independent extractor reads the lark tree back and must return the generating structure (instance ranges through Architecture: N+1). Near misses (every single-token deletion/duplication/swap of base sentences plus hand-written ones that an independent recogniser places outside the language) must raise.",
                      note="NUMBER instantiated with integer literals only; bounds as stated", tech="exhaustive grammar-based enumeration of inputs with an independent extractor/recogniser oracle")
